@@ -39,6 +39,15 @@ CHECKS = {
              'Termination: every path must return within 10 s of interpreter time; a path that does not is replayed concretely.',
         note='Trusted: z3, the SInt proxy, E1 (vf/ir2smt.py; the standard bit-vector meaning of DESIGN section 4). Bounds: depth <= 2 (+templates), arity <= 4, 3 identifiers.',
         design='5/C05', engine='E2+E1'),
+    'C13': dict(
+        level='model_checking',
+        technique='symbolic execution of the real expr_simp on permuted/re-associated operand lists with symbolic constants; structural equality of outputs proved as an SMT formula (z3)',
+        text='Partial claim. (i) idempotence: expr_simp(copy(expr_simp(e))) is structurally equal to expr_simp(e); (ii) order/nesting insensitivity: '
+             'for permutations and re-associations of the operands of + * ^ & | nodes the outputs are structurally equal - both for all values of '
+             'the constants (equality of two outputs whose constants are terms over the symbolic inputs is a z3 formula proved valid under the joint '
+             'path condition). The PYTHONHASHSEED clause is not addressed (CPython set/dict iteration across processes cannot be encoded).',
+        note='Trusted: z3, SInt proxy. Bounds: operand pool of 10, arity 2..4, widths 32/8 (quick) or 1..64 (thorough). Hash-seed independence outside the claim.',
+        design='5/C13', engine='E2'),
 }
 
 NOT_APPLICABLE = {
